@@ -371,7 +371,8 @@ def run_case(acc, judge, prop, source, spec, op_factory=None, case_no=0):
             except Exception as e:  # noqa: BLE001
                 acc.fail(cls2, "no-exception", "FMEstimatedConfigurationsNumber.get_configurations_number", tags2,
                          f"raises:{type(e).__name__}", str(e)[:200], payload2)
-        judge(acc, "history:edit-in-place", es, model, idx2, sem_t2, sem_c2, tags2, cls2, payload2, op)
+        if not (sem_t2 is None and es.get("ctcs")):
+            judge(acc, "history:edit-in-place", es, model, idx2, sem_t2, sem_c2, tags2, cls2, payload2, op)
     # history: the model is analysed while still under construction (one child attached with Relation.add_child,
     # its parent pointer not yet set), then the pointer is set and the same operation object analyses it again
     if op is not None and case_no % 5 == 1 and len(S.feature_names(spec)) >= 2:
@@ -444,6 +445,9 @@ def run_case(acc, judge, prop, source, spec, op_factory=None, case_no=0):
             cls4 = "history:after-a-failed-execution" + ("|" + "+".join(tags4) if tags4 else "")
             if raised:
                 acc.count("history:first-execution-raised-mid-traversal")
+            if sem_t4 is None and es.get("ctcs"):
+                acc.count("history-skipped(no reference for a model of this size with constraints)")
+                continue
             judge(acc, "history:after-a-failed-execution", es, m3, idx4, sem_t4, sem_c4, tags4, cls4,
                   {"source": "history:after-a-failed-execution", "spec": es if len(S.feature_names(es)) <= 80 else None,
                    "before_edit": payload["spec"], "variant": variant}, op)
@@ -510,6 +514,7 @@ def run_case(acc, judge, prop, source, spec, op_factory=None, case_no=0):
                 idx5, sem_t5, sem_c5 = reference(es, acc)
                 tags5 = model_tags(es)
                 cls5 = "history:moved-attach-then-detach" + ("|" + "+".join(tags5) if tags5 else "")
-                judge(acc, "history:moved-attach-then-detach", es, m4, idx5, sem_t5, sem_c5, tags5, cls5,
+                if not (sem_t5 is None and es.get("ctcs")):
+                  judge(acc, "history:moved-attach-then-detach", es, m4, idx5, sem_t5, sem_c5, tags5, cls5,
                       {"source": "history:moved-attach-then-detach", "spec": es if len(S.feature_names(es)) <= 80 else None,
                        "before_edit": payload["spec"]}, op)
